@@ -848,3 +848,36 @@ def corpus_anml():
     p.add_goal(em.Equals(n, 2))
     out.append(Hand(p, "half-bounded-parameter-types"))
     return out
+
+
+# ---------------------------------------------------------------------- time-triggered plans (round trip only)
+TT_TIMES = ["0", "7", "3.5", "0.001", "0.00001", "10000000.001", "123456.7890123", "98765.4321", "1234567.890625",
+            "4000000000", "0.0009765625", "12.000000000001"]
+TT_DURS = ["2", "2.5", "2.0000000001", "1234567.890625", "0.125", "100000.00001", "3.000244140625"]
+
+
+def tt_plans(problem, rng, n=2, fixed=False):
+    """time-triggered plans over the problem's actions (durative with a duration, instantaneous without), with start
+    times and durations that have finite decimal expansions of large magnitude and many digits.  They are written and
+    parsed back, not validated: the property is that (action instance, start, duration) come back unchanged."""
+    from unified_planning.plans import TimeTriggeredPlan, ActionInstance
+    em = problem.environment.expression_manager
+    acts = [a for a in problem.actions if all(pp.type.is_user_type() and list(problem.objects(pp.type)) for pp in a.parameters)]
+    if not any(not hasattr(a, "preconditions") for a in acts):
+        return []
+    plans = []
+    for k in range(n):
+        steps = []
+        times = list(TT_TIMES) if fixed else rng.sample(TT_TIMES, 4)
+        durs = list(TT_DURS) if fixed else rng.sample(TT_DURS, 4)
+        for j, t in enumerate(times):
+            a = acts[(j + k) % len(acts)] if fixed else rng.choice(acts)
+            args = tuple(em.ObjectExp(rng.choice(list(problem.objects(pp.type)))) for pp in a.parameters)
+            dur = None if hasattr(a, "preconditions") else Fraction(durs[j % len(durs)])
+            steps.append((Fraction(t), ActionInstance(a, args), dur))
+        plans.append(TimeTriggeredPlan(steps, problem.environment))
+    return plans
+
+
+def tt_rows(plan, name_of=lambda x: x.name):
+    return [(s, name_of(ai.action), tuple(name_of(x.object()) for x in ai.actual_parameters), d) for s, ai, d in plan.timed_actions]
